@@ -33,6 +33,8 @@ type Net struct {
 	Faults func(c *Conn, argv []string) bool // returns true when this command is a fault candidate
 	// FaultMenu lists the fault kinds offered (default: DropBefore, DropAfter, Stall)
 	FaultMenu []int
+	// Script, when set, decides a fault for a command deterministically (no explorer choice): return one of the Fault* kinds
+	Script func(c *Conn, argv []string) int
 	// ReadChunk > 0 limits how many bytes one Read returns (exercises short reads)
 	ReadChunk int
 	// DialFail makes the n-th dial (1-based) fail
@@ -160,6 +162,24 @@ func (c *Conn) Write(b []byte) (int, error) {
 	for _, argv := range cmds {
 		if c.closedR {
 			break // bytes after the drop are lost
+		}
+		if c.net.Script != nil {
+			switch c.net.Script(c, argv) {
+			case FaultDropBefore:
+				c.Faulted = "drop-before"
+				c.dropFromServer()
+				continue
+			case FaultDropAfter:
+				c.Faulted = "drop-after"
+				c.stalled = true
+				c.net.Srv.Feed(c.Sess, argv)
+				c.held = nil
+				c.dropFromServer()
+				continue
+			case FaultStall:
+				c.Faulted = "stall"
+				c.stalled = true
+			}
 		}
 		if c.net.Faults != nil && c.net.Faults(c, argv) {
 			menu := c.net.FaultMenu
